@@ -473,6 +473,97 @@ func runC12(c *Ctx) {
 			c.R.Ok(rule, "chpool.Pool", cfg, p.Pos(np.Pos()), sprintf("%d field stores, all in newPool before `go backgroundHealthCheck`", n))
 		}
 	}()
+	// ---- C12.borrowed
+	rule = "C12.borrowed"
+	c.R.Rule(rule, "no write through a pointer borrowed from the caller's configuration: in packages ch and chpool no Store's address is reached (through field / index selection, phis, type assertions, local variables) from a pointer loaded out of a field of ch.Options, chpool.Options or ch.Query - those objects (a *net.Dialer, a *tls.Config, ...) are shared by every Dial made from the same options, so a write races with the concurrent dials of a pool")
+	func() {
+		isCfgStruct := func(t types.Type) bool {
+			return core.IsNamed(t, core.PkgCh, "Options") || core.IsNamed(t, core.PkgPool, "Options") || core.IsNamed(t, core.PkgCh, "Query")
+		}
+		var origin func(v ssa.Value, d int, seen map[ssa.Value]bool) string
+		origin = func(v ssa.Value, d int, seen map[ssa.Value]bool) string {
+			if d > 12 || seen[v] {
+				return ""
+			}
+			seen[v] = true
+			switch x := v.(type) {
+			case *ssa.Phi:
+				for _, e := range x.Edges {
+					if o := origin(e, d+1, seen); o != "" {
+						return o
+					}
+				}
+			case *ssa.TypeAssert:
+				return origin(x.X, d+1, seen)
+			case *ssa.Extract:
+				return origin(x.Tuple, d+1, seen)
+			case *ssa.ChangeType:
+				return origin(x.X, d+1, seen)
+			case *ssa.ChangeInterface:
+				return origin(x.X, d+1, seen)
+			case *ssa.MakeInterface:
+				return origin(x.X, d+1, seen)
+			case *ssa.FieldAddr:
+				return origin(x.X, d+1, seen)
+			case *ssa.IndexAddr:
+				return origin(x.X, d+1, seen)
+			case *ssa.UnOp:
+				if x.Op != token.MUL {
+					return ""
+				}
+				if fa, ok := x.X.(*ssa.FieldAddr); ok && isCfgStruct(fa.X.Type()) {
+					if _, isPtr := x.Type().Underlying().(*types.Pointer); isPtr {
+						return core.FieldOrigin(x, 0)
+					}
+					if _, isIface := x.Type().Underlying().(*types.Interface); isIface {
+						return core.FieldOrigin(x, 0)
+					}
+					return ""
+				}
+				if al, ok := x.X.(*ssa.Alloc); ok {
+					for _, ref := range *al.Referrers() {
+						if st, ok := ref.(*ssa.Store); ok && st.Addr == al {
+							if o := origin(st.Val, d+1, seen); o != "" {
+								return o
+							}
+						}
+					}
+				}
+			}
+			return ""
+		}
+		n, bad := 0, false
+		for _, fn := range p.Funcs() {
+			if pkgOf(fn) == nil || (pkgOf(fn).Path() != core.PkgCh && pkgOf(fn).Path() != core.PkgPool) {
+				continue
+			}
+			k := 0
+			for _, b := range fn.Blocks {
+				for _, in := range b.Instrs {
+					st, ok := in.(*ssa.Store)
+					if !ok {
+						continue
+					}
+					switch st.Addr.(type) {
+					case *ssa.FieldAddr, *ssa.IndexAddr:
+					default:
+						continue
+					}
+					n++
+					if o := origin(st.Addr, 0, map[ssa.Value]bool{}); o != "" {
+						k++
+						bad = true
+						c.R.Bad(rule, sprintf("%s/store#%d", core.FuncName(fn), k), cfg, p.Pos(st.Pos()), "a store writes through the pointer the caller supplied in "+o+": the object is shared by every connection created from the same options (concurrent Dial calls of a pool race on it)")
+					}
+				}
+			}
+		}
+		if !bad {
+			c.R.Ok(rule, "ch+chpool", cfg, "", sprintf("%d field/element stores, none through a pointer taken from Options / Query", n))
+		}
+		c.R.Floor(rule, cfg, n, 40)
+	}()
+
 	// ---- C12.globals
 	rule = "C12.globals"
 	c.R.Rule(rule, "package-level variables of the library are never assigned outside package initialisation (or they are sync / sync/atomic values, or the store is under a package-level mutex): independent clients, readers and pools share nothing mutable, so two connections used from two goroutines cannot race through library globals")
